@@ -1,6 +1,37 @@
 //@ unit env_caches
 //@ serves C16
 //@ must_verify OpPointer::new OpPointer::set_path Ops::new Ops::entry Entry::get_pointer_or_else Checker::new Checker::with_working_dir Checker::with_shape_cache Checker::result Environment::get_ops_for_path Environment::add_ops_for_path_and_content Environment::get_cached_path_val Environment::update_path_val Environment::get_out_lock_for_path Environment::set_out_lock_for_path Environment::reset_out_lock_for_path lemma_lookup_is_a_fresh_computation lemma_stdlib_entry_is_fresh lemma_order_independent lemma_idempotent lemma_failure_leaves_no_trace lemma_value_cache_and_locks_are_exact
+// C16 (narrow kernel) - cache coherence of the shared Environment: opcode cache, import value cache, output locks.
+// The property itself ("a file builds the same alone, in any batch, in any order, any number of times") is a
+// hyperproperty over process runs; what contracts CAN state is what every such argument needs from the caches:
+// every lookup returns exactly what a fresh computation for the SAME key returns, an entry is never served for another
+// key, a failed computation leaves no entry behind, nothing but the one slot changes.
+//
+// Verified text (all extracted): opcode/cache.rs whole file (Ops, Entry, Ops::new, Ops::entry, Entry::get_pointer_or_else),
+// OpPointer::{new, set_path}, Environment::{get_ops_for_path, add_ops_for_path_and_content, get_cached_path_val,
+// update_path_val, get_out_lock_for_path, set_out_lock_for_path, reset_out_lock_for_path}, Checker::{new,
+// with_working_dir, with_shape_cache, result} (the checker as get_ops_for_path sets it up).
+//
+// Model (prelude/env_caches_world.rs, prelude/env_caches_front.rs, all trusted):
+//   * BTreeMap<K, V> = Map<view of K, V>; `btree_map::Entry` HOLDS the `&mut` borrow of the map (Verus' prophetic
+//     mutable references: `cur()` the map while the entry is held, `fin()` the map when the borrow ends), so the
+//     entry API of cache.rs is verified verbatim.
+//   * The FnOnce parameter of get_pointer_or_else is specified through `f.requires(())` / `f.ensures((), res)`:
+//     "the closure is NOT called on a hit" is the precondition `Vacant ==> f.requires(())` (on a hit nothing is known
+//     about the closure's precondition, so a call does not verify); "called once on a miss" is the link
+//     `f.ensures((), result)` of the stored / returned value.
+//   * PathBuf = the path std compares; `parent` is an uninterpreted function of it.
+//   * File system: a FIXED function for the run (fs_opens / fs_read). Parser, type-checker walk, translator:
+//     UNINTERPRETED functions of their arguments (spec_parse, spec_walk, spec_translate). `compile(cell, path)` is
+//     their composition exactly as the closure of get_ops_for_path composes them (which path is read, labelled,
+//     checked in which directory, order, error propagation).
+//   * The shared shape cache `Rc<RefCell<..>>` is an opaque cell here: that the type checker's outcome does not depend
+//     on what the cell holds is ASSUMED in this unit; its one-step kernel is units/env_caches_shapes.unit.rs.
+//
+// Lemmas (what C16 needs): L0 lookup == fresh computation + invariant kept; L1 order independence (p then q == q then
+// p: outcomes and cache); L2 idempotence (second lookup: same Rc, nothing changes); L3 a failed lookup leaves no trace.
+// NOT extracted: Environment::populate_stdlib (a `for` over `HashMap::drain()`); its callee
+// add_ops_for_path_and_content is (key = the library's `std/..` name, the embedded text, no file read, no type check).
 //@ include prelude/head.rs
 use std::rc::Rc;
 
